@@ -485,14 +485,15 @@ example :
 /-! ## the CIA cache -/
 
 /-- a CIA pair that is cached is served by that same object ever after (there is no clearing operation, `add_cia` never
-    replaces), and serving it does not touch the state -/
+    replaces), and serving it does not touch the state — whatever containers the path holds (several for one pair, `.cia`
+    files with other header names: no hypothesis on the file system) -/
 theorem cia_served_same (fs : List CiaSM.CDir) (s : CiaSM.St) (m : String) (o : CiaSM.CObj) (ops : List CiaSM.Op)
     (h : (CiaSM.step fs s (.get m)).2 = .served o) :
     CiaSM.step fs (CiaSM.run fs (CiaSM.step fs s (.get m)).1 ops) (.get m)
       = (CiaSM.run fs (CiaSM.step fs s (.get m)).1 ops, .served o) := by
   exact CiaSM.step_get_hit (CiaSM.run_keeps fs ops _ m o (CiaSM.step_get_served h))
 
-/-- a cached CIA pair is never constructed again -/
+/-- a cached CIA pair is never constructed again (no hypothesis on the file system) -/
 theorem cia_loaded_once (fs : List CiaSM.CDir) (s : CiaSM.St) (m : String) (o : CiaSM.CObj) (ops : List CiaSM.Op)
     (h : CiaSM.lookup s.dict m = some o) : CiaSM.loadsOf (CiaSM.run fs s ops) m = CiaSM.loadsOf s m :=
   CiaSM.run_loads fs ops s m o h
@@ -509,14 +510,54 @@ example :
     (CiaSM.run fs CiaSM.init ops).log = [("H2-H2", 0), ("H2-He", 1), ("N2-N2", 2)] := by
   decide +kernel
 
-/-- recorded, not required: a pair provided by BOTH a `.db` and a `.cia` file of the configured path is not served by the
-    first request — the second file is constructed as well and `add_cia` raises; the request after that is served the
-    `.db` object (witness replayed on the real `CIACache` by the harness' malformed stream) -/
-theorem cia_both_formats_raise :
+/-- **the first container found for a pair is the one served** (the code after fix d5856f4): however many containers of the
+    pair lie in the configured path, a request for an uncached pair constructs exactly one object — from the first file in
+    scan order (directories in path order, `.db` files before `.cia` files) that advertises the pair —, caches and serves it;
+    nothing raises.  `consistent`: every `.cia` file carries in its block headers the pair its name advertises. -/
+theorem cia_first_container_served (fs : List CiaSM.CDir) (hc : CiaSM.consistent fs) (s : CiaSM.St) (m : String)
+    (hl : CiaSM.lookup s.dict m = none) (e0 : CiaSM.CFile)
+    (hf : (CiaSM.scan fs s.path).find? (fun e => e.disc == m) = some e0) :
+    CiaSM.step fs s (.get m) =
+      ({ s with dict := s.dict ++ [(m, { id := s.nextId, pair := m, src := some e0.fileId })],
+                log := s.log ++ [(m, e0.fileId)], nextId := s.nextId + 1 },
+       .served { id := s.nextId, pair := m, src := some e0.fileId }) :=
+  CiaSM.step_get_first fs hc s m hl e0 hf
+
+/-- a request never raises the duplicate exception, and a pair without a container in the path is reported missing with the
+    cache untouched -/
+theorem cia_get_never_dup (fs : List CiaSM.CDir) (hc : CiaSM.consistent fs) (s : CiaSM.St) (m : String) :
+    (CiaSM.step fs s (.get m)).2 ≠ .dup ∧
+    (CiaSM.lookup s.dict m = none → (CiaSM.scan fs s.path).find? (fun e => e.disc == m) = none →
+      CiaSM.step fs s (.get m) = (s, .missing)) :=
+  ⟨CiaSM.step_get_no_dup fs hc s m, CiaSM.step_get_none fs hc s m⟩
+
+/-- non-vacuity, and the both-containers directory of the former finding: `H2-H2.db` and `H2-H2_2011.cia` side by side (and
+    a second directory with another `.db` of the pair, path = list of both): the first request is served the `.db` object of
+    the first directory, one construction, later requests the same object -/
+example :
+    let fs : List CiaSM.CDir := [[⟨.db, 0, "H2-H2", "H2-H2"⟩, ⟨.cia, 1, "H2-H2", "H2-H2"⟩], [⟨.db, 2, "H2-H2", "H2-H2"⟩]]
+    let ops : List CiaSM.Op := [.setPath (.many [0, 1]), .get "H2-H2", .get "H2-H2", .setPath (.single 1), .get "H2-H2"]
+    CiaSM.consistent fs ∧
+    CiaSM.trace fs CiaSM.init ops
+      = [.done, .served ⟨0, "H2-H2", some 0⟩, .served ⟨0, "H2-H2", some 0⟩, .done, .served ⟨0, "H2-H2", some 0⟩] ∧
+    CiaSM.loadsOf (CiaSM.run fs CiaSM.init ops) "H2-H2" = 1 := by
+  refine ⟨?_, by decide +kernel, by decide +kernel⟩
+  intro d hd e he
+  simp only [List.mem_cons, List.mem_nil_iff, or_false] at hd
+  rcases hd with rfl | rfl <;> simp only [List.mem_cons, List.mem_nil_iff, or_false] at he
+  · rcases he with rfl | rfl <;> rfl
+  · subst he; rfl
+
+/-- regression statement about the scan BEFORE the fix (`stepPinned`): with a `.db` and a `.cia` file of one pair in the
+    configured directory the first request raised (the second file was constructed as well and `add_cia` refused it), only the
+    second request was served; the repaired scan serves the `.db` object at once, with one construction -/
+theorem cia_both_formats_raise_pinned :
     let fs : List CiaSM.CDir := [[⟨.db, 0, "H2-H2", "H2-H2"⟩, ⟨.cia, 1, "H2-H2", "H2-H2"⟩]]
     let ops : List CiaSM.Op := [.setPath (.single 0), .get "H2-H2", .get "H2-H2"]
-    CiaSM.trace fs CiaSM.init ops = [.done, .dup, .served ⟨0, "H2-H2", some 0⟩] ∧
-    CiaSM.loadsOf (CiaSM.run fs CiaSM.init ops) "H2-H2" = 2 := by
+    CiaSM.tracePinned fs CiaSM.init ops = [.done, .dup, .served ⟨0, "H2-H2", some 0⟩] ∧
+    CiaSM.loadsOf (CiaSM.runPinned fs CiaSM.init ops) "H2-H2" = 2 ∧
+    CiaSM.trace fs CiaSM.init ops = [.done, .served ⟨0, "H2-H2", some 0⟩, .served ⟨0, "H2-H2", some 0⟩] ∧
+    CiaSM.loadsOf (CiaSM.run fs CiaSM.init ops) "H2-H2" = 1 := by
   decide +kernel
 
 end Taurex.C14
